@@ -11,6 +11,7 @@ pub mod c13;
 pub mod c14;
 pub mod c18;
 pub mod lattice;
+pub mod miri;
 pub mod paths;
 pub mod plan;
 pub mod steps;
